@@ -201,6 +201,10 @@ def run(ctx) -> None:
         floor=5,
     )
     RO = ctx.rule("C13/one-emitter-per-watch", "emitter construction is control-dependent on a failed membership test of the watch in the emitter map, under the lock", floor=1)
+    RHS = ctx.rule("C13/handlers-of-a-watch-form-a-set", "the registry maps a watch to a *set* of handlers: the per-watch collection is a set, or every insertion is made under a failed membership test (instance shared with C04): scheduling the same handler twice for equal watches leaves one registration, and one removal removes it", floor=1)
+    from .c04 import registry_holds_a_handler_once
+
+    registry_holds_a_handler_once(ctx, RHS, P)
     RI = ctx.rule("C13/watch-identity", "__eq__, __ne__ and __hash__ of ObservedWatch are functions of the one key, and key is (path, recursive flag, filter)", floor=4)
 
     cfg = ThreadCfg(
@@ -245,6 +249,7 @@ def run(ctx) -> None:
         {"h"},  # add handler only
         {"H", "h"},
         {"h-"},  # remove handler only: the key stays as long as the watch is scheduled
+        {"H", "h-"},  # the same through setdefault(watch, set()) (what the defaultdict does implicitly on the look-up)
         {"H-", "E-", "M-", "W-"},  # remove watch
         {"H0", "E0", "M0", "W0"},  # clear
         set(),
